@@ -79,11 +79,33 @@ func lockCallsIn(fn *ssa.Function) (locks, unlocks []lockCall) {
 // sameRoot: two SSA values denote the same object (same value, or both loads of the
 // same local cell / free variable).
 func sameRoot(a, b ssa.Value) bool {
+	a, b = rootParam(a), rootParam(b)
 	if a == b {
 		return true
 	}
 	ca, cb := cellOf(a), cellOf(b)
 	return ca != nil && ca == cb
+}
+
+// rootParam: a local cell that only ever holds a parameter (receiver copied for closure
+// capture) denotes that parameter.
+func rootParam(v ssa.Value) ssa.Value {
+	a, ok := v.(*ssa.Alloc)
+	if !ok {
+		if fv, isFV := v.(*ssa.FreeVar); isFV {
+			if r := resolveFreeVar(fv); r != nil {
+				return rootParam(r)
+			}
+		}
+		return v
+	}
+	sts := storesTo(a.Parent(), a)
+	if len(sts) == 1 {
+		if p, ok := sts[0].Val.(*ssa.Parameter); ok {
+			return p
+		}
+	}
+	return v
 }
 
 // heldAt returns "Lock", "RLock" or "" for the mutex key on root at instruction in.
